@@ -434,8 +434,11 @@ fn known_overlap_finding(rt_root: &std::path::Path) -> bool {
 }
 
 fn check_overlap(c: &OverlapCase, ctx: &Ctx) -> Outcome {
-    let samples = c17::messy_samples(&c.inner);
     let k = c.inner.k.max(if c.with_ref { 15 } else { 7 });
+    // materialise with the k actually used, so that truncated samples still hold a window
+    let mut inner = c.inner.clone();
+    inner.k = k;
+    let samples = c17::messy_samples(&inner);
     let dir = ctx.case_dir();
     let known = known_overlap_finding(&std::path::PathBuf::from(std::env::var("VERIF_ROOT").unwrap_or_else(|_| "/verif".into())));
     let r: Result<bool, Outcome> = (|| {
